@@ -2,6 +2,7 @@
 #include <cmath>
 #include <cstdarg>
 #include <cstdio>
+#include <cstdlib>
 
 namespace sim {
 
@@ -61,7 +62,7 @@ void KrylovObserver::on_checkpoint(int kind, const spectra_verif::FacView& v)
     if (kind == CK_EXPAND) expands_since_init++;
     // pinned-tree known finding of the general (Arnoldi) solvers: basis orthonormality drifts over many
     // implicit restarts; no verdict there (declared, DESIGN.md sections 11.3 and 12)
-    if (general && (compress_since_init > 6 || (skip_after_expand && expands_since_init > 0)))
+    if (general && (compress_since_init > 20 || (skip_after_expand && expands_since_init > 0)))
     {
         skipped_known_regime++;
         return;
@@ -115,6 +116,7 @@ void KrylovObserver::on_checkpoint(int kind, const spectra_verif::FacView& v)
             gdev = std::max(gdev, std::hypot(Gr(i, j) - (i == j ? 1.0L : 0.0L), Gi(i, j)));
     const ld ounit = (ld) std::max<long>(k, 4) * eps * (hasP ? R.kappaP : 1.0L) * (ld) std::sqrt((double) n);
     stats.max_orth = std::max(stats.max_orth, gdev / ounit);
+    if (std::getenv("SIM_TRACE_KRYLOV")) std::printf("trace %s k=%ld |V'PV-I|=%.3Lg beta=%.3Lg\n", checkpoint_name(kind), k, gdev, (ld) v.beta);
     if (!(gdev <= C.C_vorth * ounit))
         viol("basis-orthonormality", gdev / (C.C_vorth * ounit), fmt("max|V'%sV - I| = %.3Lg > %.3Lg (k=%ld)", hasP ? "P" : "", gdev, C.C_vorth * ounit, k));
     // V^H P f
